@@ -614,7 +614,8 @@ Proof.
   - intros q [<-|[<-|[<-|[<-|[]]]]]; cdx; f3; veq; ring.
   - constructor; [|constructor]. simpl. exists 1. repeat split. lra.
   - subst X p. unfold run_plan, run_steps. cbn [map fold_left fst snd code_step run_step].
-    rewrite (step_acyclic_unfold_up _ _ _ _ _ _ _ _ _ Rlt_0_1).
-    cbv [sub_translate sub_transform update_rows update_from in_idx existsb Nat.eqb orb List.nth]. cdx. f3. simpl.
-    intros H. field_simplify in H. lra.
+    unfold step_acyclic, outa_plane. rewrite !outa_R_up by lra. rewrite mmul_eye_conj.
+    match goal with |- ?v <> 0 => assert (E : v = 4 / 5) end.
+    { cbv [sub_translate sub_transform update_rows update_from in_idx existsb Nat.eqb orb List.nth]. cdx. f3. simpl. field. }
+    rewrite E. lra.
 Qed.
